@@ -27,6 +27,8 @@ import (
 
 func childMain(args []string) {
 	switch args[0] {
+	case "sftpserver":
+		sftpServerMain()
 	case "store":
 		dir := args[1]
 		unc := args[2] == "1"
